@@ -39,7 +39,12 @@ def main():
             print('replaying %s case=%s' % (body['property'], json.dumps(body['case'])[:2000]))
             print('recorded violation: %s' % json.dumps(body['violation'])[:2000])
             core._winit(mod.__name__)
-            res = mod.run_case(body['case'])
+            if 'schedule' in body['violation'] and hasattr(mod, 'replay_one'):
+                # a schedule-based violation: re-execute exactly that one schedule, without the explorer
+                print('re-executing the single recorded schedule (%d choices)' % len(body['violation']['schedule'] if isinstance(body['violation']['schedule'], list) else body['violation']['schedule'].get('choices', [])))
+                res = {'viol': mod.replay_one(body['case'], body['violation']), 'obs': 'single schedule'}
+            else:
+                res = mod.run_case(body['case'])
             sigs = [v['sig'] for v in res.get('viol', ())]
             for v in res.get('viol', ()):
                 print('  reproduced: sig=%s\n    expected=%s\n    observed=%s' % (v['sig'], v.get('expected'), v.get('observed')))
